@@ -53,7 +53,6 @@ package db
 //@ interface database/sql.Result.RowsAffected (self)
 //@   modifies nothing
 
-
 // ---- classification of a storage error (assumed, A5): the driver's extended result code of a primary-key conflict
 //@ func SQLiteErr (err)
 //@   trusted
